@@ -26,3 +26,8 @@ package schemahelper
 //@   ensures [C07,C12,C16] lookup == depRes
 //@   ensures [C07,C12,C16] implies(depRes == LookupSuccessful || depRes == LookupPartiallySuccessful, forallkey(k, depBody.Attributes, haskey(merged.Attributes, k) && merged.Attributes[k] == depBody.Attributes[k]))
 //@   ensures [C07,C12,C16] implies(depRes == LookupSuccessful || depRes == LookupPartiallySuccessful, forallkey(k, depBody.Blocks, haskey(merged.Blocks, k)))
+
+// ---- C16: the value form of a dependency key. Only a value written as a scope traversal becomes an address
+// ---- key; literals (including the keywords true/false/null) are static values.
+//@ contract schemahelper.dependencyKeysFromBlock (block, blockSchema) (result)
+//@   assert before lang.TraversalToAddress#1 : [C16] typeis(attr.Expr, "*hclsyntax.ScopeTraversalExpr")
